@@ -92,7 +92,7 @@ fn run_twise(ctx: &Ctx, out: &mut dyn Write) {
         if !quick && src.desc.starts_with("table n=4") && !rng.chance(1, 16) {
             continue;
         }
-        let inp: Input = match make_input(format!("c09-{}", k), src, &mut rng) {
+        let inp: Input = match make_input(format!("c09-s{}-{}", ctx.seed, k), src, &mut rng) {
             Some(i) => i,
             None => continue,
         };
@@ -162,7 +162,7 @@ fn run_iter(ctx: &Ctx, out: &mut dyn Write) {
     let top = if ctx.tier != "thorough" { 7 } else { 9 };
     for m in 0..=top {
         let mut s = String::new();
-        writeln!(s, "case c09iter-{} C09I", m).unwrap();
+        writeln!(s, "case c09iter-{}-{} C09I", if overflow_checks() { "dev" } else { "rel" }, m).unwrap();
         writeln!(s, "info TIndicesIter / TInteractionIter, slice length {}", m).unwrap();
         writeln!(s, "hook 1").unwrap();
         writeln!(s, "dbg {}", dbg).unwrap();
